@@ -40,7 +40,7 @@ ASSUMPTIONS = [
     "TableReader files are well-formed numeric rows (two or more columns); malformed rows are outside the statement",
 ]
 REQUIRED = {"stratum:table": 60, "stratum:reader": 60, "stratum:plot": 40, "reader:no_final_newline": 15,
-            "reader:unsorted": 15, "reader:x_scaled": 20, "table:x_scaled": 8, "reader:inside_node_inside": 10, "reader:other_interval_then_node_then_inside": 15, "reader:comments": 15, "table:xy": 15, "table:y_before_x": 4, "table:x_y": 15, "table:potable": 20}
+            "reader:unsorted": 15, "reader:x_scaled": 20, "table:x_scaled": 8, "reader:inside_node_inside": 10, "reader:other_interval_then_node_then_inside": 15, "reader:comments": 15, "reader:other_number_spellings": 15, "table:xy": 15, "table:y_before_x": 4, "table:x_y": 15, "table:potable": 20}
 
 
 @st.composite
@@ -93,7 +93,7 @@ def _reader_case(draw):
     ys = draw(st.lists(gen.number(-100, 100), min_size=n, max_size=n))
     rows = list(zip(xs, ys))
     feats = draw(st.lists(st.sampled_from(["comments", "blank", "tabs", "unsorted", "extra_column", "no_final_newline",
-                                           "leading_blanks", "crlf_free_trailing_blanks"]), max_size=5, unique=True))
+                                           "leading_blanks", "crlf_free_trailing_blanks", "other_number_spellings", "other_number_spellings"]), max_size=5, unique=True))
     if "unsorted" in feats:
         rows = list(draw(st.permutations(rows)))
     else:
@@ -202,12 +202,31 @@ def _check_table(case):
 
 
 # ---- TableReader -----------------------------------------------------------------
+def _other_spelling(s, i):
+    """the same number as other programs (Fortran, C) print it: no zero in front of the point ('.5', '-.25'), a bare
+    point after a whole number ('3.'), an explicit plus sign, a capital E"""
+    t = s
+    if t.startswith("0.") and len(t) > 2:
+        t = t[1:]
+    elif t.startswith("-0.") and len(t) > 3:
+        t = "-" + t[2:]
+    elif "." not in t and "e" not in t.lower() and t.lstrip("-").isdigit():
+        t = t + "."
+    elif i % 3 == 0 and not t.startswith("-"):
+        t = "+" + t
+    t = t.replace("e", "E") if i % 2 else t
+    return t if float(t) == float(s) else s
+
+
 def reader_text(case):
     feats = set(case["features"])
     lines = []
     for i, (x, y) in enumerate(case["rows"]):
         sep = "\t" if "tabs" in feats and i % 2 == 0 else ("   " if "tabs" in feats else " ")
-        line = "%s%s%s" % (render.num(x), sep, render.num(y))
+        sx, sy = render.num(x), render.num(y)
+        if "other_number_spellings" in feats:
+            sx, sy = _other_spelling(sx, i), _other_spelling(sy, i + 1)
+        line = "%s%s%s" % (sx, sep, sy)
         if "extra_column" in feats and i % 3 == 0:
             line += sep + "99.5"
         if "leading_blanks" in feats and i % 4 == 1:
